@@ -772,3 +772,13 @@ func Call(f func()) (outcome string) {
 	f()
 	return "ok"
 }
+
+// CorpusPath returns the path of a committed corpus file: $VERIF_CORPUS_DIR/<name> (set by ./check to its own
+// corpus directory), default /verif/corpus/<name>.
+func CorpusPath(name string) string {
+	d := os.Getenv("VERIF_CORPUS_DIR")
+	if d == "" {
+		d = "/verif/corpus"
+	}
+	return d + "/" + name
+}
